@@ -23,6 +23,7 @@ RULE = ('runs with layer children (-j N, or layers resumed after a NotImplemente
         'no partial data; always: no hang (structural deadlock detection), no worker thread died. '
         'distinct = digest of hook sequences + fired channel '
         'faults + completion order; non-trivial = a channel/child fault fired')
+RULE += (' One seed in ten: reading one child\'s stderr fails (EIO) in the helper thread.')
 RULE += (' ' + "Later additions: noise lines inside the report, stderr stalling after stdout closed, detached children, real exit statuses; one seed in four under line-level pre-emption of the parent's threads.")
 HOWS = ['exit0', 'exit3', 'kill', 'segv', 'sysexit', 'kbdint']
 UNI = ['test_ünï', 'test_中文', 'test_' + 'x' * 300, 'test_αβ']
@@ -194,6 +195,10 @@ def gen(seed, thorough=False):
         # the system is out of threads when a worker wants to start the reader of its child's
         # stderr: that layer's report is not delivered - an error for it, nothing silently lost
         knobs['thread_start_fail'] = 1 + (seed // 10) % 3
+    if seed % 10 == 4:
+        # reading one child's stderr fails (EIO) in the helper thread: that layer's report is
+        # not delivered - an error for it, nothing silently lost, no hang
+        knobs['stderr_read_error'] = 1 + (seed // 10) % 3
     if 'j' not in opt and seed % 3 == 1:
         # resumed layers are relayed by the worker thread itself: one of its writes to the
         # parent's stdout fails (EAGAIN) - the child's report still counts
